@@ -856,7 +856,29 @@ fn enumerate_faults(sc: &Value, census: &Sub, tier: &str) -> Vec<Value> {
     let nsteps = sc["clients"][0]["steps"].as_array().map(|a| a.len()).unwrap_or(1);
     let victim_op = sc["plan"]["victim_op"].as_u64().map(|v| v as usize).unwrap_or(nsteps - 1) + 1; // +1: op 0 is the clock line
     let mut out = Vec::new();
-    for ev in census.events.iter().filter(|e| e.client == victim_client && e.op == Some(victim_op)) {
+    // long runs of the same call on the same file (a 1 MiB value verified through a 1 KiB buffer is a thousand
+    // reads) are thinned to the first two, the last two and two in the middle: every distinct call site is still hit
+    let evs: Vec<&Event> = census.events.iter().filter(|e| e.client == victim_client && e.op == Some(victim_op)).collect();
+    let mut keep = vec![true; evs.len()];
+    let mut i = 0;
+    while i < evs.len() {
+        let mut j = i;
+        while j + 1 < evs.len() && evs[j + 1].sys.nr == evs[i].sys.nr && evs[j + 1].sys.path == evs[i].sys.path {
+            j += 1;
+        }
+        let n = j - i + 1;
+        if n > 8 {
+            for k in i..=j {
+                let r = k - i;
+                keep[k] = r < 2 || r >= n - 2 || r == n / 2 || r == n / 3;
+            }
+        }
+        i = j + 1;
+    }
+    for (idx, ev) in evs.iter().enumerate() {
+        if !keep[idx] {
+            continue;
+        }
         let at = ev.ord;
         let f = |a: Action| json!({"client": victim_client, "at": at, "action": a.to_json()});
         match mode {
@@ -1204,9 +1226,27 @@ fn gen_c13(rng: &mut Rng, r: u64) -> Value {
 fn gen_c15(rng: &mut Rng, _r: u64) -> Value {
     let nk = rng.range(2, 4) as usize;
     let keys = pick_keys(rng, nk, true);
-    let vals = mk_vals(rng, 2, 30_000);
+    let mut vals = mk_vals(rng, 2, 30_000);
+    vals.push(json!({"seed": rng.next_u64() >> 1, "len": *rng.pick(&[0u64, 9, 20_000])}));
     let f = flav(rng);
     let mut steps = Vec::new();
+    let mut prelude: Vec<Value> = Vec::new();
+    // sometimes the cache already holds entries, one of them damaged on disk: reads of damaged content must not mutate
+    if rng.chance(1, 3) {
+        let fp = flav(rng);
+        prelude.push(json!({"k":"api","op":"write","entry":"write","key":0,"val":0,"bin":fp.0,"mode":fp.1}));
+        prelude.push(match rng.below(3) {
+            0 => json!({"k":"env","act":"flip_frac","content":{"val":0,"algo":"sha256"},"num":rng.below(1000),"bit":rng.below(8)}),
+            1 => json!({"k":"env","act":"truncate_frac","content":{"val":0,"algo":"sha256"},"num":rng.below(1000)}),
+            _ => json!({"k":"env","act":"extend","content":{"val":0,"algo":"sha256"},"n":4,"seed":9}),
+        });
+    }
+    // a file outside the cache that gets linked in: removals must never follow the link
+    let link = rng.chance(1, 3);
+    if link {
+        prelude.push(json!({"k":"env","act":"write_file","path":"$T/linked-target","val":2}));
+        steps.push(json!({"k":"api","op":"link_to","entry":*rng.pick(&["fn","open"]),"key":nk - 1,"target":"$T/linked-target","mode":f.1}));
+    }
     let n = rng.range(3, 10);
     for i in 0..n {
         let ki = rng.idx(nk);
@@ -1237,13 +1277,20 @@ fn gen_c15(rng: &mut Rng, _r: u64) -> Value {
             _ => json!({"k":"api","op":"read","addr":{"val":vi,"algo":"sha256"}}),
         };
         let mut st = st;
+        if link && rng.chance(1, 4) {
+            st = match rng.below(3) {
+                0 => json!({"k":"api","op":"remove_hash","addr":{"val":2,"algo":"sha256"}}),
+                1 => json!({"k":"api","op":"remove_opts","fully":true,"key":nk - 1}),
+                _ => json!({"k":"api","op":"read","key":nk - 1}),
+            };
+        }
         st["mode"] = json!(if st["op"] == "list" { "sync" } else { f.1 });
         steps.push(st);
     }
     let style = *rng.pick(&["plain", "plain", "trailing_slash", "dotted", "dotdot"]);
     let faults: Vec<Value> = if rng.chance(1, 2) { vec![json!({"client":0,"at":rng.below(40),"action":{"a":"errno","e":*rng.pick(&[libc::EIO, libc::EACCES, libc::ENOSPC])}})] } else { vec![] };
     let oracle = if faults.is_empty() { "strict" } else { "fault" };
-    json!({"keys":keys,"vals":vals,"cache_style":style,"prelude":[],"clients":[{"bin":f.0,"steps":steps}],"post":[],
+    json!({"keys":keys,"vals":vals,"cache_style":style,"prelude":prelude,"clients":[{"bin":f.0,"steps":steps}],"post":[],
            "plan":{"kind":"single","faults":faults,"schedule":{"policy":"first"}},"oracle":oracle,"lenient_after_fault":true})
 }
 
